@@ -341,8 +341,13 @@ impl Property for C12 {
             "growth" => {
                 let c = &CHAINS[idx as usize];
                 let (times, exponential) = growth_probe(|n| {
+                    // unguarded: this phase is where the known blow-ups are measured
                     let src = (c.build)(n);
-                    let _ = run_front(&src);
+                    let _ = crate::panics::catch(|| {
+                        if let Ok(mut prog) = tx3_lang::parsing::parse_string(&src) {
+                            let _ = tx3_lang::analyzing::analyze(&mut prog);
+                        }
+                    });
                 });
                 ctx.eval();
                 ctx.count("growth/probed");
